@@ -293,6 +293,26 @@ var c14Derived = []struct {
 		_, _ = q.GroupByOffset()
 	}},
 	{"Walk", func(q *influxql.SelectStatement) { influxql.WalkFunc(q, func(influxql.Node) {}) }},
+	// type evaluation of every field, condition operand and dimension against the statement's own sources (subqueries
+	// included): a question about the statement, not a rewrite of it
+	{"EvalType", func(q *influxql.SelectStatement) {
+		tv := influxql.TypeValuerEval{TypeMapper: c14Mapper{}, Sources: q.Sources}
+		for _, f := range q.Fields {
+			_ = influxql.EvalType(f.Expr, q.Sources, c14Mapper{})
+			_, _ = tv.EvalType(f.Expr)
+		}
+		for _, d := range q.Dimensions {
+			_ = influxql.EvalType(d.Expr, q.Sources, c14Mapper{})
+		}
+		if q.Condition != nil {
+			influxql.WalkFunc(q.Condition, func(n influxql.Node) {
+				if e, ok := n.(influxql.Expr); ok {
+					_ = influxql.EvalType(e, q.Sources, c14Mapper{})
+				}
+			})
+		}
+		_, _, _ = influxql.FieldDimensions(q.Sources, c14Mapper{})
+	}},
 }
 
 func safely(f func()) (pn interface{}) {
@@ -425,7 +445,9 @@ func propC14(o *out, r *rng, thorough bool) {
 			o.sample(text)
 		}
 	}
-	for _, w := range []string{"SELECT a INTO db.rp.t FROM m", "SELECT a INTO db.rp.:MEASUREMENT FROM /x/", "SELECT mean(a) FROM (SELECT b FROM /re/ WHERE x =~ /y/) GROUP BY time(1m), /h/ fill(3.5) ORDER BY time DESC tz('UTC')",
+	for _, w := range []string{"SELECT value FROM (SELECT value FROM cpu WHERE host = 'a')", "SELECT value, host, n FROM (SELECT value, host, n FROM (SELECT value, host, n FROM cpu)) WHERE value > n GROUP BY host",
+		"SELECT mean(value) FROM (SELECT value + n AS value FROM cpu), (SELECT n FROM mem)", "SELECT value INTO copy FROM db0.rp0.cpu", "SELECT value INTO \"\".rp1.copy FROM db0.rp0.cpu, db1..mem",
+		"SELECT a INTO db.rp.t FROM m", "SELECT a INTO db.rp.:MEASUREMENT FROM /x/", "SELECT mean(a) FROM (SELECT b FROM /re/ WHERE x =~ /y/) GROUP BY time(1m), /h/ fill(3.5) ORDER BY time DESC tz('UTC')",
 		"SELECT mean(v) FROM m GROUP BY time(5m, now())", "SELECT mean(v) FROM m WHERE time > now() - 1h GROUP BY time(5m, now() - 1m), host", "SELECT 1 + 2, v + (2 * 3) AS x FROM m GROUP BY time(1m + 1m)",
 		"SELECT v FROM (SELECT v FROM m WHERE time > now() GROUP BY time(1m, now())) WHERE time < now() + 1h", "SELECT DISTINCT a FROM m", "SELECT count(DISTINCT a), top(b, c, 3) FROM m WHERE time > now() - 1h AND (h = 'x' OR h =~ /^a$/)",
 		// name queries that build scratch field lists or look through parentheses
